@@ -421,6 +421,11 @@ func (x *Exec) trSel(e *SExpr, env *TrEnv) *Term {
 			}
 		}
 	}
+	if e.Args[0].Kind == "id" && e.Args[0].Name == "T" {
+		if _, isBound := env.bound["T"]; !isBound {
+			return V("T."+e.Name, SType)
+		}
+	}
 	base := x.trExpr(e.Args[0], env)
 	if si, ok := x.u.structs[base.Sort]; ok {
 		for i, f := range si.Fields {
@@ -547,6 +552,13 @@ func (x *Exec) trCall(e *SExpr, env *TrEnv) *Term {
 	case "fresh":
 		r := x.trExpr(e.Args[0], env)
 		return And(Neq(r, V("null", SRef)), Not(Select(x.getSt(env.old.st, "alloc", arraySort(SRef, SBool)), r)))
+	case "gotype":
+		if len(e.Args) == 1 && e.Args[0].Kind == "str" {
+			name := "T." + mangle(e.Args[0].Str)
+			x.u.typeConsts[name] = true
+			return V(name, SType)
+		}
+		specErr(e, "gotype needs a string literal")
 	case "dyntype":
 		return mk("dyntype", SType, x.trExpr(e.Args[0], env))
 	case "typeName":
@@ -554,6 +566,8 @@ func (x *Exec) trCall(e *SExpr, env *TrEnv) *Term {
 	case "box":
 		v := x.trExpr(e.Args[0], env)
 		return x.box(v, nil)
+	case "unboxRef":
+		return mk("unbox_Ref", SRef, x.trExpr(e.Args[0], env))
 	case "unboxStr":
 		return mk("unbox_Str", SStr, x.trExpr(e.Args[0], env))
 	case "arr":
